@@ -45,7 +45,7 @@ ASSUMPTIONS = [
     'data of a result may be the same object or an equal deep copy; order of keys()/available_values() '
     'is not asserted',
 ]
-BUDGET = {'quick': {'cases': 1500, 'shards': 16, 'seconds': 120, 'shrink_s': 30},
+BUDGET = {'quick': {'cases': 6000, 'shards': 16, 'seconds': 120, 'shrink_s': 30},
           'thorough': {'cases': 100000, 'shards': 16, 'seconds': 900, 'shrink_s': 45}}
 # Fractions of histories showing the class at least once, taken over generated + enumerated cases
 # (the 1476 enumerated single-query cases make up half of the quick tier); about 55 % of the values
